@@ -348,8 +348,12 @@ def main():
     for v in viol:
         f = is_known(pid, v, kf)
         (known if f else unknown).append((v, f))
+    printed = set()
     for v, f in known:
-        log('KNOWN-FINDING: property=%s %s' % (pid, f['what']))
+        if f['id'] in printed:
+            continue
+        printed.add(f['id'])
+        log('KNOWN-FINDING: property=%s %s (%d occurrence(s))' % (pid, f['what'], sum(1 for _, g in known if g['id'] == f['id'])))
     rc = 0
     seen = set()
     for v, _ in unknown:
